@@ -47,8 +47,12 @@ theorem inv_drainSend {W : Nat} {s s' : St} (h : Inv W s) (hs : step? s .drainSe
   · next _ it rest =>
     dsimp only at *
     split at hs
-    · injection hs with hs; subst hs
-      close_inv it.id
+    · split at hs
+      · next hb =>
+        injection hs with hs; subst hs
+        close_inv it.id
+      · injection hs with hs; subst hs
+        close_inv it.id
     · cases hs
   · cases hs
 
